@@ -101,7 +101,7 @@ pub fn enc_req(max: Option<usize>, m: &Msg) -> (String, String, Vec<u8>) {
     );
     let cfg = config_with_max(max);
     let mut w = FramedWrite::new(Vec::<u8>::new(), hook::codec(&cfg));
-    let res = rt().block_on(hook::write_request(&mut w, req));
+    let res = futures::executor::block_on(hook::write_request(&mut w, req));
     let written = w.get_ref().clone();
     let out = match res {
         Ok(()) => format!("ok {}", hexs(&written)),
@@ -124,7 +124,7 @@ pub fn enc_resp(max: Option<usize>, m: &Msg) -> (String, String, Vec<u8>) {
     );
     let cfg = config_with_max(max);
     let mut w = FramedWrite::new(Vec::<u8>::new(), hook::codec(&cfg));
-    let res = rt().block_on(hook::write_response(&mut w, resp));
+    let res = futures::executor::block_on(hook::write_response(&mut w, resp));
     let written = w.get_ref().clone();
     let out = match res {
         Ok(()) => format!("ok {}", hexs(&written)),
@@ -149,7 +149,7 @@ pub fn dec_req(max: Option<usize>, bytes: &[u8]) -> (String, String, Dec) {
     let cfg = config_with_max(max);
     let r = catch_unwind(AssertUnwindSafe(|| {
         let mut rd = FramedRead::new(bytes, hook::codec(&cfg));
-        let res = rt().block_on(hook::read_request(&mut rd));
+        let res = futures::executor::block_on(hook::read_request(&mut rd));
         let rest = rd.read_buffer().len() + rd.get_ref().len();
         (res, rest)
     }));
@@ -181,7 +181,7 @@ pub fn dec_resp(max: Option<usize>, bytes: &[u8]) -> (String, String, Dec) {
     let cfg = config_with_max(max);
     let r = catch_unwind(AssertUnwindSafe(|| {
         let mut rd = FramedRead::new(bytes, hook::codec(&cfg));
-        let res = rt().block_on(hook::read_response(&mut rd));
+        let res = futures::executor::block_on(hook::read_response(&mut rd));
         let rest = rd.read_buffer().len() + rd.get_ref().len();
         (res, rest)
     }));
@@ -212,7 +212,7 @@ pub fn dec_ver(bytes: &[u8]) -> (String, String) {
     let op = format!("wire.dec-ver bytes={}", hexs(bytes));
     let r = catch_unwind(AssertUnwindSafe(|| {
         let mut s: &[u8] = bytes;
-        let res = rt().block_on(hook::read_version_frame(&mut s));
+        let res = futures::executor::block_on(hook::read_version_frame(&mut s));
         (res, s.len())
     }));
     match r {
@@ -224,7 +224,7 @@ pub fn dec_ver(bytes: &[u8]) -> (String, String) {
 
 pub fn enc_ver() -> (String, String) {
     let mut v = Vec::new();
-    rt().block_on(hook::write_version_frame(&mut v, anemo::types::Version::V1)).unwrap();
+    futures::executor::block_on(hook::write_version_frame(&mut v, anemo::types::Version::V1)).unwrap();
     ("wire.enc-ver version=1".into(), format!("ok {}", hexs(&v)))
 }
 
@@ -573,6 +573,7 @@ pub fn run_c07(run: &mut Run, replay: Option<&Path>, corpus: &Path) -> anyhow::R
             }
         };
         let max = if rng.chance(1, 6) { Some(rng.below(600) as usize) } else { None };
+        run.mark(&format!("wire.dec-req|dec-resp max={} bytes={}", fmt_max(max), hexs(&bytes)));
         let (op, out, dec) = match rng.below(5) {
             0 => {
                 let (o, p) = dec_ver(&bytes);
